@@ -32,6 +32,10 @@ class NotSupported(Exception):
     pass
 
 
+class UnboundColumn(NotSupported):
+    pass
+
+
 def untraced(fn: Callable[[], Any]) -> Any:
     """Run SQLAlchemy's own statement introspection outside CrossHair tracing (its compiler builds
     sets of column objects, whose == is overloaded, which CrossHair's patched containers cannot hold).
@@ -204,6 +208,28 @@ class Evaluator:
     def __init__(self, db: DB):
         self.db = db
         self.alg = db.alg
+        # per-evaluator caches (one evaluator = one statement execution on one database state)
+        self._froms: dict[int, Any] = {}
+        self._cols: dict[int, Any] = {}
+        self._uncorrelated: dict[tuple[int, bool], Any] = {}   # results of subqueries that do not read the outer row
+        self._correlated: set[int] = set()
+        self._keep: list[Any] = []
+
+    def subselect(self, sel: Select, env: dict[Any, Any], proj: bool = True) -> Any:
+        """Evaluate a subquery; one that never reads the enclosing row is evaluated once and memoised."""
+        k = (id(sel), proj)
+        if k in self._uncorrelated:
+            return self._uncorrelated[k]
+        if id(sel) not in self._correlated:
+            try:
+                res = self.select(sel, {"__scope__": env.get("__scope__", [])}, proj=proj)
+                self._keep.append(sel)
+                self._uncorrelated[k] = res
+                return res
+            except UnboundColumn:
+                self._correlated.add(id(sel))
+                self._keep.append(sel)
+        return self.select(sel, env, proj=proj)
 
     # -- three-valued helpers ------------------------------------------------
     def truth(self, b: tuple[Any, Any]) -> Any:
@@ -251,7 +277,7 @@ class Evaluator:
         if isinstance(e, (Column, ColumnClause)):
             k = _key_of(e)
             if k not in env:
-                raise NotSupported(f"unbound column {e} ({k})")
+                raise UnboundColumn(f"unbound column {e} ({k})")
             return env[k]
         if isinstance(e, BindParameter):
             v = e.value
@@ -278,14 +304,14 @@ class Evaluator:
                 raise NotSupported(f"boolean operator {e.operator}")
             return (t, A.and_([A.not_(t), A.not_(f)]))
         if isinstance(e, Exists):
-            rel = self.select(_unwrap_select(e), env, proj=False)
+            rel = self.subselect(_unwrap_select(e), env, proj=False)
             return (A.or_([g for g, _ in rel]), F)
         if isinstance(e, UnaryExpression):
             if e.operator is ops.inv:
                 b = self.expr(e.element, env)
                 return (A.and_([A.not_(b[0]), A.not_(b[1])]), b[1])
             if e.operator is ops.exists:
-                rel = self.select(_unwrap_select(e.element), env, proj=False)
+                rel = self.subselect(_unwrap_select(e.element), env, proj=False)
                 return (A.or_([g for g, _ in rel]), F)
             raise NotSupported(f"unary operator {e.operator}")
         if isinstance(e, BinaryExpression):
@@ -293,7 +319,7 @@ class Evaluator:
             if op in (ops.in_op, ops.not_in_op) and isinstance(e.left, Tuple):
                 # row-value IN (SELECT a, b ...): component-wise equality against every member row
                 ls = [self.expr(c, env) for c in e.left.clauses]
-                rel = self.select(_unwrap_select(e.right), env)
+                rel = self.subselect(_unwrap_select(e.right), env)
                 hits, unknowns = [], []
                 for g, r in rel:
                     vs = list(r.values())
@@ -317,7 +343,7 @@ class Evaluator:
                     vals = list(right.value)
                     members = [(T, (A.const(v), F)) for v in vals]
                 else:
-                    rel = self.select(_unwrap_select(right), env)
+                    rel = self.subselect(_unwrap_select(right), env)
                     members = [(g, list(r.values())[0]) for g, r in rel]
                 hits = [A.and_([g, A.not_(v[1]), A.cmp(ops.eq, v[0], l[0])]) for g, v in members]
                 t = A.and_([A.not_(l[1]), A.or_(hits)])
@@ -344,7 +370,11 @@ class Evaluator:
     def select(self, sel: Select, outer: dict[Any, Any], proj: bool = True,
                ordered: bool = False) -> list[tuple[Any, dict[str, tuple[Any, Any]]]]:
         A = self.alg
-        froms = untraced(lambda: list(sel.get_final_froms()))
+        if id(sel) not in self._froms:
+            self._froms[id(sel)] = untraced(lambda: list(sel.get_final_froms()))
+            self._cols[id(sel)] = untraced(lambda: list(sel.selected_columns))
+            self._keep.append(sel)
+        froms = list(self._froms[id(sel)])
         scope = outer.get("__scope__", [])
 
         def leaves(f: Any) -> list[Any]:
@@ -364,7 +394,7 @@ class Evaluator:
                 if A.maybe(g2):
                     rel2.append((g2, env))
             rel = rel2
-        cols = untraced(lambda: list(sel.selected_columns))
+        cols = self._cols[id(sel)]
 
         def is_count(c: Any) -> bool:
             c2 = c
